@@ -235,13 +235,14 @@ func shortStack() string {
 func genRCase(byzantine bool, maxN int) func(t *rapid.T) rCase {
 	return func(t *rapid.T) rCase {
 		var c rCase
-		minN := 2
+		// Byzantine cases go down to a single honest receiver among n >= 2 (a two-party session with a Byzantine peer, or
+		// everybody else colluding): what is handed to ITS backend is still bound by C03
+		c.N = rapid.IntRange(2, maxN).Draw(t, "n")
 		if byzantine {
-			minN = 3
-		}
-		c.N = rapid.IntRange(minN, maxN).Draw(t, "n")
-		if byzantine {
-			f := rapid.IntRange(1, c.N-2).Draw(t, "f")
+			f := rapid.IntRange(1, c.N-1).Draw(t, "f")
+			if c.N > 2 && f == c.N-1 && rapid.IntRange(0, 2).Draw(t, "keep2honest") != 0 {
+				f = c.N - 2
+			}
 			perm := rapid.Permutation(seq(1, c.N)).Draw(t, "byzperm")
 			c.Byz = sortedInts(perm[:f])
 		}
